@@ -156,6 +156,33 @@ func isPadSrc(s string) bool {
 }
 
 func runC03(w *World, r *Report) {
+	// what an independent decoder recovers also depends on the framing and on the helpers that turn API
+	// arguments into the bytes of a field: the size rules of C01/C06 for the OpenFlow kinds, the value
+	// converter of the generic match-field builder (C17 convform) and the offset/width word of the range
+	// helpers (C16 word, range)
+	r.Rule("size", "sizeM ≡ sizeL (and extentM ≡ sizeL up to round8) as symbolic terms, per OpenFlow kind (the C06 rule)", 100)
+	r.Rule("embed", "child encodings are copied whole (the C06 rule)", 60)
+	r.Rule("nooverlap", "no two write records provably overlap (the C06 rule)", 100)
+	sizeRules(w, r, func(k *Kind) bool { return strings.HasPrefix(k.Name, "openflow13.") || strings.HasPrefix(k.Name, "common.") })
+	r.Rule("convform", "the value converter of the generic builder hands over exactly the argument's own value, whatever its (named) type (the C17 rule)", 3)
+	r.Rule("word", "offset in bits 6..15, width-1 in bits 0..5 of the offset/width word (the C16 rule)", 2)
+	r.Rule("range", "range accessors and constructors agree (the C16 rule)", 5)
+	{
+		r2 := NewReport("C17", r.Tier)
+		runC17(w, r2)
+		for _, o := range r2.Obs {
+			if o.Rule == "convform" {
+				r.Add(o)
+			}
+		}
+		r3 := NewReport("C16", r.Tier)
+		runC16(w, r3)
+		for _, o := range r3.Obs {
+			if o.Rule == "word" || o.Rule == "range" {
+				r.Add(o)
+			}
+		}
+	}
 	r.Rule("shiftwidth", "no shift by a constant count that is as large as its operand's type (the value would always be 0: bits lost before widening)", 1)
 	shiftWidthRule(w, r, "shiftwidth", func(fi *FuncInfo) bool { return fi.Pkg.Types.Name() == "openflow13" || fi.Pkg.Types.Name() == "common" })
 	r.Rule("observers", "methods that formatting calls implicitly (String, Error, …) leave the value unchanged", 1)
